@@ -524,6 +524,30 @@ fn run_once(line: &str, dir: &PathBuf, quiet: Duration) -> String {
                 }
             }
             b'+' => std::thread::sleep(Duration::from_millis(rest.parse().unwrap())),
+            b'H' => {
+                // graceful stop (last op) with the connections held open THROUGH shutdown_timeout (2 s, set by the builder
+                // options): must not complete before the timeout and must complete soon after it — on restarted workers too
+                let h = run.handle2.clone();
+                let (gtx, grx) = mpsc::channel();
+                let t0 = Instant::now();
+                std::thread::spawn(move || {
+                    let _ = gtx.send(block_on(h.stop(true)).is_some());
+                });
+                let busy = sh.active.iter().any(|a| a.load(Ordering::SeqCst) > 0);
+                let verdict = if !busy {
+                    match grx.recv_timeout(BOUND) {
+                        Ok(true) => "idle",
+                        _ => "never",
+                    }
+                } else {
+                    match grx.recv_timeout(Duration::from_millis(2000 + 4000)) {
+                        Ok(_) if t0.elapsed() < Duration::from_millis(1700) => "early",
+                        Ok(true) => "timeout",
+                        _ => "never",
+                    }
+                };
+                graceful = Some(verdict);
+            }
             b'G' => {
                 // graceful stop (last op): must not complete while a connection is in progress; completes once they are closed
                 let h = run.handle2.clone();
@@ -587,7 +611,7 @@ fn run_once(line: &str, dir: &PathBuf, quiet: Duration) -> String {
         }
         clients.retain(|(c, _)| !dropped.contains(c));
         if let Some(v) = graceful {
-            out.push(format!("G={v}{note}"));
+            out.push(format!("{}={v}{note}", &op[..1]));
             break;
         }
         out.push(format!("{}={}/a{}{}", op, items.join(","), act.join("."), note));
